@@ -43,7 +43,7 @@ class AddGuard(Contract):
     facets = "VRFTNSK"
     cprops = eprops = ()
     sprops = ("C02", "C03", "C08", "C09")
-    tprops = ("C06",)       # entering a nested region must cost the same constraints whatever the outer guard's value
+    tprops = ("C06", "C09") # entering a nested region must cost the same constraints whatever the outer guard's value
     guard_relevant = False
     modules = ("pysnark.runtime", "pysnark.boolean")
 
